@@ -10,6 +10,8 @@ pub fn dispatch(f: &[String]) -> String
         "expr" => op_expr(f),
         "tok" => op_tok(f),
         "lit" => op_lit(f),
+        "fmt" => op_fmt(f),
+        "ofmt" => op_ofmt(f),
         _ => format!("{{\"unknown_op\":{}}}", json::string(&f[0])),
     }
 }
@@ -314,4 +316,83 @@ fn op_lit(f: &[String]) -> String
         Ok(b) => format!("{{\"ok\":{}}}", json::string(&dec(&b))),
         Err(()) => format!("{{\"err\":{}}}", json::string(&first_error(&report))),
     }
+}
+
+
+fn format_name(fmt: &crate::driver::OutputFormat) -> String
+{
+    use crate::driver::OutputFormat as F;
+    match fmt
+    {
+        F::Binary => "Binary".to_string(),
+        F::Annotated { base, group } => format!("Annotated base={} group={}", base, group),
+        F::BinStr => "BinStr".to_string(),
+        F::HexStr => "HexStr".to_string(),
+        F::BinDump => "BinDump".to_string(),
+        F::HexDump => "HexDump".to_string(),
+        F::Mif => "Mif".to_string(),
+        F::IntelHex { address_unit } => format!("IntelHex address_unit={}", address_unit),
+        F::DecComma => "DecComma".to_string(),
+        F::HexComma => "HexComma".to_string(),
+        F::DecSpace => "DecSpace".to_string(),
+        F::HexSpace => "HexSpace".to_string(),
+        F::DecC => "DecC".to_string(),
+        F::HexC => "HexC".to_string(),
+        F::LogiSim8 => "LogiSim8".to_string(),
+        F::LogiSim16 => "LogiSim16".to_string(),
+        F::AddressSpan => "AddressSpan".to_string(),
+        F::TCGame { base, group } => format!("TCGame base={} group={}", base, group),
+        F::Symbols => "Symbols".to_string(),
+        F::SymbolsMesenMlb => "SymbolsMesenMlb".to_string(),
+    }
+}
+
+
+/// ofmt <format_string_hex> : driver::parse_output_format
+fn op_ofmt(f: &[String]) -> String
+{
+    let text = json::unhex_str(&f[1]);
+    let mut report = diagn::Report::new();
+    match crate::driver::parse_output_format(&mut report, &text)
+    {
+        Ok(fmt) => format!("{{\"ok\":{}}}", json::string(&format_name(&fmt))),
+        Err(()) => format!("{{\"err\":{}}}", json::string(&first_error(&report))),
+    }
+}
+
+
+/// fmt <format_string_hex> <bits|-> <spans off:size,..|->  (offset `n` = no offset)
+fn op_fmt(f: &[String]) -> String
+{
+    let text = json::unhex_str(&f[1]);
+    let mut report = diagn::Report::new();
+    let fmt = match crate::driver::parse_output_format(&mut report, &text)
+    {
+        Ok(fmt) => fmt,
+        Err(()) => return format!("{{\"err\":{}}}", json::string(&first_error(&report))),
+    };
+    let mut out = util::BitVec::new();
+    if f[2] != "-"
+    {
+        for (i, c) in f[2].chars().enumerate()
+        {
+            out.write_bit(i, c == '1');
+        }
+    }
+    if f[3] != "-"
+    {
+        for sp in f[3].split(',')
+        {
+            let mut it = sp.split(':');
+            let off = it.next().unwrap();
+            let size: usize = it.next().unwrap().parse().unwrap();
+            let offset = if off == "n" { None } else { Some(off.parse::<usize>().unwrap()) };
+            out.mark_span(offset, size, util::BigInt::new(0, None), diagn::Span::new_dummy());
+        }
+    }
+    let fileserver = util::FileServerMock::new();
+    let decls = asm::decls::init(&mut report).unwrap();
+    let defs = asm::defs::init();
+    let bytes = crate::driver::format_output(&fileserver, &decls, &defs, &out, fmt);
+    format!("{{\"out\":\"{}\"}}", json::hex(&bytes))
 }
